@@ -1,4 +1,5 @@
 import Martian.Model.Har
+import Martian.Model.JsonString
 import Martian.Drv.C15
 /-! Driver for C16: `hreq`, `hres`, `jsonpd`, `jsoncontent` (see go/internal/c16). -/
 namespace Martian.Drv.C16
@@ -70,6 +71,20 @@ def step (s : St) (toks : List String) : St × String :=
       let rt := if unmarshalContent jdec j == some c then "ok" else "lossy"
       (s, (if j.encoding.isSome then "base64 " else "text ") ++ (if rt == "ok" then hex j.text else "?") ++ " rt=" ++ rt)
     | _, _ => (s, "bad-op")
+  | ["jsonstr", "enc", x] =>
+    match unhex x with
+    | some b =>
+      let tok := jsonEncodeString b
+      (s, s!"enc {hex tok} rt=" ++ (match jsonDecodeString tok with | some r => hex r | none => "err"))
+    | none => (s, "bad-op")
+  | ["jsonstr", "dec", x] =>
+    match unhex x with
+    | some tok => (s, match jsonDecodeString tok with | some r => "dec ok " ++ hex r | none => "dec err")
+    | none => (s, "bad-op")
+  | ["jsonstr", "san", x] =>
+    match unhex x with
+    | some b => (s, "san " ++ hex (sanitize b))
+    | none => (s, "bad-op")
   | _ => (s, "bad-op")
 
 end Martian.Drv.C16
